@@ -323,6 +323,42 @@ func (m *Model) onDonate(chain, from int, e *End, coin string, amt *big.Int) {
 	addTo(m.Donated[chain], coin, amt)
 }
 
+// ExpectRecvSuccess is the model's prediction for a receive of p processed now: it fails when
+// receiving is disabled on the destination or a leg names an invalid or blocked receiver.
+func (w *World) ExpectRecvSuccess(p *TPkt) bool {
+	if w.RecvDisabled[p.Dst.Chain] {
+		return false
+	}
+	for _, l := range p.Legs {
+		if l.RKind != RAcct {
+			return false
+		}
+	}
+	return true
+}
+
+// EscrowingEnds counts, per chain and coin, the ends whose model escrow is positive, and returns
+// the maximum.
+func (w *World) MaxEndsEscrowingSameDenom() int {
+	best := 0
+	for i := range w.Chains {
+		cnt := map[string]int{}
+		for _, e := range w.EndsOn(i) {
+			for coin, v := range w.M.Escrowed[endKey(i, e.ID)] {
+				if v.Sign() > 0 {
+					cnt[coin]++
+				}
+			}
+		}
+		for _, c := range cnt {
+			if c > best {
+				best = c
+			}
+		}
+	}
+	return best
+}
+
 // InFlightOf sums the amounts of in-flight legs sent from end e carrying denom d (compared by path).
 func (w *World) InFlightOf(e *End, d Denom) *big.Int {
 	sum := new(big.Int)
@@ -463,10 +499,13 @@ func (w *World) CheckEscrowTotals() (out []Finding, evaluated int) {
 
 // ModelDiff compares every balance the model tracks (tracked accounts, escrow accounts, blocked
 // module account) and every balance the chain holds for a known label with the model ledger.
-func (w *World) ModelDiff() []string {
+func (w *World) ModelDiff() []string { return w.ModelDiffFrom(w.Banks()) }
+
+// ModelDiffFrom is ModelDiff on snapshots already taken.
+func (w *World) ModelDiffFrom(banks []Bank) []string {
 	var out []string
 	for i := range w.Chains {
-		b := w.BankOf(i)
+		b := banks[i]
 		seen := map[string]bool{}
 		for k, v := range b {
 			isSup, label, coin := SplitKey(k)
